@@ -9,6 +9,7 @@ Also: the thorough-tier run against a real local socket server (raw HTTP/1.1 byt
 from __future__ import annotations
 
 import asyncio
+import copy
 import sys
 
 from . import http_gen as G
@@ -92,6 +93,23 @@ def outgoing(req, k, fence=False):
         return GARBAGE[req["garbage"] % len(GARBAGE)]
     rid = G.idval(req["id"])
     method = req.get("method") or ("tools/list" if req["id"] is not None else "notifications/initialized")
+    shape = req.get("shape")
+    if shape in ("specific", "wrapper"):
+        # the library's other message classes: the specific request / notification types and the compatibility wrapper
+        from chuk_mcp.protocol.messages import json_rpc_message as J
+        m = J.JSONRPCRequest(jsonrpc="2.0", id=rid, method=method, params={"k": k}) if req["id"] is not None \
+            else J.JSONRPCNotification(jsonrpc="2.0", method=method, params={"k": k})
+        return J.JSONRPCMessageWrapper(m) if shape == "wrapper" else m
+    if shape == "odict":
+        import collections
+
+        class MsgDict(collections.OrderedDict):
+            """a dict subclass"""
+
+        d = MsgDict(jsonrpc="2.0", method=method, params={"k": k})
+        if req["id"] is not None:
+            d["id"] = rid
+        return d
     if req.get("dict"):
         d = {"jsonrpc": "2.0", "method": method, "params": {"k": k}}
         if req["id"] is not None:
@@ -227,16 +245,28 @@ async def _one_round(case, params, make_client_patch, start_delay=0):
                 async with anyio.create_task_group() as tg:
                     for k in range(len(reqs)):
                         tg.start_soon(send_one, k)
-                if leave is None:
+                if leave is None and case.get("close_rd_after") is None:
                     await wr.send(outgoing(None, -1, fence=True))
+                    if case.get("close_wr"):
+                        await wr.aclose()          # the caller is done sending: what is queued still has to go out
 
             async with anyio.create_task_group() as tg:
                 tg.start_soon(send_all)
                 await vsleep(case.get("read_delay", 0))
-                with anyio.move_on_after(600 if leave is None else leave / vloop.TICKS_PER_S):
+                patience = 600 + max([r.get("delay", 0) for r in reqs] + [0]) / vloop.TICKS_PER_S
+                with anyio.move_on_after(patience if leave is None else leave / vloop.TICKS_PER_S):
                     async for m in rd:
-                        c = canon_delivered(m)
+                        c = copy.deepcopy(canon_delivered(m))
                         out.append(c)
+                        # a consumer that annotates what it received in place (middleware adding _meta):
+                        # nothing delivered later may alias it
+                        for part in (getattr(m, "result", None), getattr(m, "error", None), getattr(m, "params", None)):
+                            if isinstance(part, dict):
+                                part["_meta"] = {"seen": len(out)}
+                        if case.get("close_rd_after") is not None and len(out) >= case["close_rd_after"]:
+                            await rd.aclose()      # the caller stops listening while POSTs are outstanding
+                            await vsleep(4096)
+                            break
                         if c["id"] == {"s": FENCE_ID} and c["kind"] in ("result", "error"):
                             # the server's own answer to the last request, or something the transport made up for it
                             fence = True if c["kind"] == "result" and c["payload"] == {"fence": True} else "synthesised"
@@ -270,7 +300,18 @@ def _debug_logging():
     import logging
     root = logging.getLogger()
     prev_disable, prev_level, prev_handlers = root.manager.disable, root.level, list(root.handlers)
-    root.handlers[:] = [logging.NullHandler()]
+    class Formatting(logging.Handler):
+        """what a host's handler does: format the record (a NullHandler never does)"""
+
+        def emit(self, record):
+            try:
+                self.format(record)
+            except Exception:
+                pass
+
+    h = Formatting()
+    h.setFormatter(logging.Formatter("%(asctime)s %(name)s %(levelname)s %(message)s"))
+    root.handlers[:] = [h]
     root.setLevel(logging.DEBUG)
     logging.disable(logging.NOTSET)
 
@@ -408,6 +449,8 @@ def completed_before_leave(case):
 
 
 def model_line(case):
+    if case.get("close_rd_after") is not None:
+        return None
     if case.get("leave_at") is not None:
         reqs = [{"id": case["reqs"][k]["id"], "b": G.model_behaviour(case["reqs"][k]["b"])} for k in completed_before_leave(case)]
         return {"m": "http", "op": "run", "session0": case.get("session0"), "reqs": reqs}
